@@ -192,9 +192,11 @@ class Monitor:
             # the RETURN trapped (no GOSUB pending in that routine): nothing
             # was popped, and the handler may already run on another frame
             return
-        if op in ('ijmp', 'pop') and self.suspended is not None:
-            # the handler left through RETURN: the suspended call chain (and
-            # its stack entries) is abandoned
+        if op in ('ijmp', 'pop') and self.suspended is not None \
+                and self.suspended[0] == id(cpu.cur_frame):
+            # the handler (module-level frame) left through RETURN: the
+            # suspended call chain (and its stack entries) is abandoned; a
+            # RETURN inside a procedure the handler calls is another matter
             self.suspended = None
         if op == 'frame':
             self.frames[id(cpu.cur_frame)] = [len(cpu.stack), 0, cpu.cur_frame]
